@@ -22,10 +22,11 @@ What is proved of `answer` is stated clause by clause: for ALL inputs `answer_co
 `answer_setup_ok(_desc)`, `answer_setup_complements`, `answer_direction_ok`, `answer_mux_ok(_desc)`,
 `answer_bundle_ok`, `answer_extmap_ok`; under named, decidable, satisfiable hypotheses
 `answer_direction_ok_desc` (`DirSynced`), `answer_aligned_partial` (all mids present, `KindSynced`,
-mids not cleared) and their conjunction `answer_valid_core_partial`.  A combined
-`answer_valid_partial` over ALL clauses is NOT proved: the codecs / RTX / extension-id-uniqueness
-clauses have no positive theorem (they are false in general, see the witnesses) and are checked on the
-implementation by the oracle only.
+mids not cleared), their conjunction `answer_valid_core_partial`, and `answer_valid_partial`:
+`validAnswer offer a` in full under those hypotheses plus `RoleFits`, `GroupListsMids` and
+`SelectionWithinOffer` — the last one ("what the local configuration selects lies within the offered
+section": payload types, RTX associations, extension ids) is exactly what the code does NOT ensure
+(witnesses above); it is a hypothesis, not something proved about the code.
 
 SDP text: `parse_print` (line level, decidable `WF`), `parse_print_structural` (structural `WF'`),
 `norm_idem`, `parse_print_exact`, `parse_text_print` (text level), and the character-level
@@ -531,6 +532,170 @@ example : KindSynced [trx .audio "0", trx .video "1"] bundleOffer ∧ DirSynced 
   · intro t ht o ho hm
     simp only [bundleOffer, mkOffer, List.mem_cons, List.mem_nil_iff, or_false] at ht ho
     rcases ht with rfl | rfl <;> rcases ho with rfl | rfl <;> rfl
+
+/-! ### the combined partial theorem -/
+
+/-- what the local configuration selects for the offered section `o` (formats, codec / RTX / extension
+attributes): the answer section built for `o`, seen as a section -/
+def selection (c : Cfg) (offer : Desc) (hasLocal : Bool) (role : Option Bool) (o : Media) : Media :=
+  { o with formats := (capabilities c o.kind offer.media hasLocal role o.mid (secHasMux o)).1,
+           attrs := (capabilities c o.kind offer.media hasLocal role o.mid (secHasMux o)).2 }
+
+/-- **the missing feature, as a hypothesis**: for every offered section the locally selected payload
+types, RTX associations and header-extension ids lie within what that section offered (and the ids are
+pairwise distinct). Decidable; false e.g. for the PCMU-only offer of `first_answer_ignores_offer_codecs`. -/
+def SelectionWithinOffer (c : Cfg) (offer : Desc) (hasLocal : Bool) (role : Option Bool) : Prop :=
+  ∀ o ∈ offer.media, secPtsOk o (selection c offer hasLocal role o) = true ∧
+    secRtxOk o (selection c offer hasLocal role o) = true ∧ secExtOk o (selection c offer hasLocal role o) = true
+
+/-- the cached DTLS role is one every offered section can accept -/
+def RoleFits (c : Cfg) (role : Option Bool) (offer : Desc) : Prop :=
+  c.mode = .webrtc → ∀ o ∈ offer.media, setupCompatible (setupOf o) (setupValue role) = true
+
+/-- the offer's BUNDLE group (if any) lists the mids of its sections -/
+def GroupListsMids (offer : Desc) : Prop :=
+  ∀ og, offerGroup offer.session.attrs = some og → ∀ o ∈ offer.media, o.mid ∈ groupMids og
+
+/-- **answer_valid_partial** — `validAnswer offer a` for every answer the model produces, under the named
+hypotheses: every offered section carries a (white-space free, non-empty) mid; the matched transceivers
+have the offered kinds and directions (`KindSynced`, `DirSynced` — established by a first
+`set_remote_description`, C09 `first_offer_syncs_transceivers`); Standard mode with BUNDLE offered or a
+single section (mids not cleared); the cached role fits (`RoleFits`, cf. `answer_setup_complements`);
+the offer's group lists its mids; and `SelectionWithinOffer` — the part the code does NOT ensure. -/
+theorem answer_valid_partial (c : Cfg) (ts : List TrxView) (nextMid : Nat) (hasLocal : Bool) (role : Option Bool)
+    (offer : Desc) (a : Answer) (h : answer c ts nextMid hasLocal role (some offer) = .ok a)
+    (hmids : ∀ o ∈ offer.media, IsTok o.mid) (hk : KindSynced ts offer) (hd : DirSynced ts offer)
+    (hnc : c.legacySip = false ∧ (offeredBundle offer.session.attrs = true ∨ offer.media.length ≤ 1))
+    (hrole : RoleFits c role offer) (hgrp : GroupListsMids offer)
+    (hsel : SelectionWithinOffer c offer hasLocal role) :
+    validAnswer offer a = true := by
+  have hne : ∀ o ∈ offer.media, o.mid ≠ [] := fun o ho => (hmids o ho).1
+  obtain ⟨order, ho, _, hkeep⟩ := answer_sections c ts nextMid hasLocal role offer a h
+  obtain ⟨tail, ht, hal⟩ := answerOrder_matches ts offer.media [] [] order ho
+  simp only [List.reverse_nil, List.nil_append] at ht
+  subst ht
+  have hv := Answer.answerOrder_valid _ _ _ _ _ (by intro p hp; cases hp) ho
+  have hsecs := hkeep hnc
+  -- all per-section clauses at once
+  have hall : zipAll secValid offer.media a.sections = true := by
+    rw [hsecs]
+    apply zipAll_buildList _ _ _ _ _ secValid _ _ _ hv
+    refine hal.imp ?_
+    intro o p ho' _ ⟨hflag, t', hget', hm⟩ t mid hget hmid
+    rw [hget'] at hget; injection hget with e; subst e
+    have hkind := hk t' (mem_of_getElem_some hget') o ho' hm
+    have hdir := hd t' (mem_of_getElem_some hget') o ho' hm
+    have hmid' : mid = o.mid := by
+      rcases hm with ⟨_, htm⟩ | ⟨hem, _⟩
+      · exact hmid _ htm
+      · exact absurd hem (hne o ho')
+    subst hmid'
+    obtain ⟨hpts, hrtx, hext⟩ := hsel o ho'
+    have hcap : capabilities c t'.kind offer.media hasLocal role o.mid p.2 =
+        capabilities c o.kind offer.media hasLocal role o.mid (secHasMux o) := by rw [hkind, hflag]
+    have e1 : secAligned o (answerSection c t' offer.media hasLocal role o.mid p.2) = true := by
+      simp [secAligned, answerSection, hkind]
+    have e2 : secPtsOk o (answerSection c t' offer.media hasLocal role o.mid p.2) = true := by
+      have : (answerSection c t' offer.media hasLocal role o.mid p.2).formats = (selection c offer hasLocal role o).formats := by
+        simp only [answerSection, selection, hcap]
+      unfold secPtsOk at hpts ⊢; rw [this]; exact hpts
+    have hattrs : (answerSection c t' offer.media hasLocal role o.mid p.2).attrs = (selection c offer hasLocal role o).attrs := by
+      simp only [answerSection, selection, hcap]
+    have e3 : secRtxOk o (answerSection c t' offer.media hasLocal role o.mid p.2) = true := by
+      unfold secRtxOk at hrtx ⊢; rw [hattrs]; exact hrtx
+    have e4 : secExtOk o (answerSection c t' offer.media hasLocal role o.mid p.2) = true := by
+      unfold secExtOk extIds at hext ⊢; rw [hattrs]; exact hext
+    have e5 : secMuxOk o (answerSection c t' offer.media hasLocal role o.mid p.2) = true := by
+      unfold secMuxOk
+      cases hp : p.2 with
+      | false => rw [answer_mux_ok c t' offer.media hasLocal role o.mid]; rfl
+      | true =>
+        rw [hp] at hflag
+        have e : hasAttr o "rtcp-mux" = true := hflag.symm
+        rw [e, Bool.or_true]
+    have e6 : secDirOk o (answerSection c t' offer.media hasLocal role o.mid p.2) = true := by
+      unfold secDirOk
+      simp only [answerSection]
+      rw [← hdir]
+      exact answer_direction_ok t' offer.media o.mid
+    have e7 : secSetupOk o (answerSection c t' offer.media hasLocal role o.mid p.2) = true := by
+      unfold secSetupOk
+      rw [setupOf_answerSection]
+      by_cases hw : c.mode = .webrtc
+      · rw [if_pos hw]
+        exact hrole hw o ho'
+      · rw [if_neg hw]
+    unfold secValid
+    rw [e1, e2, e3, e4, e5, e6, e7]
+    rfl
+  -- BUNDLE members
+  have hb : bundleOk offer.session.attrs a = true := by
+    unfold bundleOk
+    cases hg : a.group with
+    | none => rfl
+    | some g =>
+      dsimp only
+      obtain ⟨hob, _⟩ := answer_bundle_ok c ts nextMid hasLocal role offer a g h hg
+      obtain ⟨og, hog⟩ := offerGroup_of_offered _ hob
+      rw [hog]
+      dsimp only
+      -- the group value lists the answer's mids = the offer's mids
+      have halign : zipAll secAligned offer.media a.sections = true :=
+        answer_aligned_partial c ts nextMid hasLocal role offer a h hne hk hnc
+      have hmidsEq := zipAll_aligned_mids _ _ halign
+      have hgv : g = "BUNDLE ".toList ++ join sp (a.sections.map (·.mid)) ∧ a.sections ≠ [] := by
+        unfold answer at h
+        by_cases hts : ts.isEmpty = true
+        · simp [hts] at h
+        · simp only [hts, Bool.false_eq_true, if_false, ho] at h
+          injection h with h
+          subst h
+          simp only [hnc.1, Bool.not_false, Bool.true_and, Bool.false_eq_true, if_false] at hg ⊢
+          split at hg
+          · rename_i hc
+            simp only [Bool.and_eq_true, Bool.not_eq_true'] at hc
+            injection hg with hg
+            have hnotclear : (!offeredBundle offer.session.attrs &&
+                decide ((buildSections c ts offer.media hasLocal role order nextMid []).length > 1)) = false := by
+              rw [hob]; rfl
+            simp only [hnotclear, Bool.false_eq_true, if_false]
+            refine ⟨hg.symm, ?_⟩
+            intro hnil
+            simp [hnil] at hc
+          · cases hg
+      rw [hgv.1, groupMids_bundle _ (by simpa using hgv.2) (by
+        intro m hm
+        rw [hmidsEq] at hm
+        obtain ⟨o, ho', rfl⟩ := List.mem_map.mp hm
+        exact hmids o ho')]
+      rw [List.all_eq_true]
+      intro m hm
+      rw [hmidsEq] at hm
+      obtain ⟨o, ho', rfl⟩ := List.mem_map.mp hm
+      have := hgrp og hog o ho'
+      simpa using this
+  unfold validAnswer
+  rw [hall, hb]
+  rfl
+
+/-- the hypotheses of `answer_valid_partial` are satisfiable by a non-trivial instance, and its
+conclusion agrees with evaluating `validAnswer` there -/
+example : SelectionWithinOffer cfgDefault bundleOffer false (some false) ∧ RoleFits cfgDefault (some false) bundleOffer ∧
+    GroupListsMids bundleOffer ∧ (∀ o ∈ bundleOffer.media, IsTok o.mid) := by
+  refine ⟨?_, ?_, ?_, by decide⟩
+  · intro o ho
+    simp only [bundleOffer, mkOffer, List.mem_cons, List.mem_nil_iff, or_false] at ho
+    rcases ho with rfl | rfl <;> decide
+  · intro _ o ho
+    simp only [bundleOffer, mkOffer, List.mem_cons, List.mem_nil_iff, or_false] at ho
+    rcases ho with rfl | rfl <;> decide
+  · intro og hog o ho
+    have : og = "BUNDLE 0 1".toList := by
+      have : offerGroup bundleOffer.session.attrs = some "BUNDLE 0 1".toList := by decide
+      rw [this] at hog; injection hog with e; exact e.symm
+    subst this
+    simp only [bundleOffer, mkOffer, List.mem_cons, List.mem_nil_iff, or_false] at ho
+    rcases ho with rfl | rfl <;> decide
 
 /-! ### SDP text -/
 
